@@ -138,6 +138,7 @@ class Gen:
         self.unroll_cap = 400 if self.long else 60
         self.model = Model(BOOT_CONFIGS[self.boot_id] or BOOT_CONFIGS["shipped"])
         self.steps = []
+        self.force = {}
         self.sess_handles = {s: [] for s in range(self.n_sessions)}
         self.decl = set()
         self.counter = {s: 0 for s in range(self.n_sessions)}
@@ -186,7 +187,9 @@ class Gen:
     def mk_new(self, s):
         rng = self.rng
         name = self.fresh(s)
-        if rng.random() < self.P["p_reps"]:
+        if "reps" in self.force:
+            reps = self.force.pop("reps")
+        elif rng.random() < self.P["p_reps"]:
             if rng.random() < self.P["p_regrep"]:
                 reps = {"reg": ["rr0", rng.choice(["k0", "k1"])]}
             else:
@@ -204,14 +207,18 @@ class Gen:
         hs = [h for h in self.sess_handles[s]]
         if not hs:
             return self.mk_new(s)
-        name = rng.choice(hs)
+        name = self.force.pop("handle", None) or rng.choice(hs)
         if self.model.leaf_count(name) >= self.leaf_cap or self.unrolled(name) >= self.unroll_cap:
             return False
-        if self.P.get("p_meas") and rng.random() < self.P["p_meas"]:
+        if "kind" in self.force:
+            kind = self.force.pop("kind")
+        elif self.P.get("p_meas") and rng.random() < self.P["p_meas"]:
             kind = "DispersiveMeasure"
         else:
             kind = rng.choice(self.kinds)
         arity, params = KINDS[kind]
+        if arity == 2 and self.n_qubits < 2:
+            kind, (arity, params) = "Wait", KINDS["Wait"]
         st = {"s": s, "op": "ADD_OP", "c": name, "kind": kind}
         if "multi" in params:
             k = rng.randint(1, self.n_qubits)
@@ -221,7 +228,9 @@ class Gen:
         else:
             st["q"] = [rng.randrange(self.n_qubits)]
         if kind in TAKES_DUR:
-            if rng.random() < self.P["p_regdur"]:
+            if "dur" in self.force:
+                st["dur"] = self.force.pop("dur")
+            elif rng.random() < self.P["p_regdur"]:
                 st["dur"] = {"reg": ["dr0", rng.choice(["k0", "k1", "k2"])]}
             elif rng.random() < 0.9:
                 st["dur"] = {"fixed": rng.choice(self.durs)}
@@ -326,12 +335,14 @@ class Gen:
         parents = [h for h in self.sess_handles[s] if h in self.decl]
         if not parents:
             return False
-        parent = rng.choice(parents)
+        parent = self.force.pop("parent", None) or rng.choice(parents)
         if rng.random() < 0.8:
             cands = [h for h in self.sess_handles[s] if h != parent]
         else:
             cands = [h for h in self.all_handles() if h != parent]
         cands = [h for h in cands if self.model.roots[h] is not self.model.roots[parent]]
+        if "child" in self.force:
+            cands = [self.force.pop("child")]
         if not cands:
             return False
         child = rng.choice(cands)
@@ -353,7 +364,7 @@ class Gen:
         hs = self.sess_handles[s]
         if not hs:
             return False
-        name = self.rng.choice(hs)
+        name = self.force.pop("handle", None) or self.rng.choice(hs)
         as_name = self.fresh(s)
         self.emit({"s": s, "op": "COPY", "c": name, "as": as_name})
         self.model.copy(name, as_name)
@@ -368,7 +379,7 @@ class Gen:
         hs = self.sess_handles[s]
         if not hs:
             return False
-        name = self.rng.choice(hs)
+        name = self.force.pop("handle", None) or self.rng.choice(hs)
         if self.unrolled(name) > 120:
             return False
         as_name = self.fresh(s)
@@ -391,7 +402,7 @@ class Gen:
         hs = self.sess_handles[s]
         if not hs:
             return False
-        name = self.rng.choice(hs)
+        name = self.force.pop("handle", None) or self.rng.choice(hs)
         as_name = self.fresh(s)
         self.emit({"s": s, "op": "FLATTEN", "c": name, "as": as_name})
         self._model_flatten(name, as_name)
@@ -419,9 +430,11 @@ class Gen:
         if not self.P.get("lib", True):
             return False
         name = self.fresh(s)
-        ctor = rng.choice(["rep", "rep", "simp", "cal", "multi"])
+        ctor = self.force.pop("ctor", None) or rng.choice(["rep", "rep", "simp", "cal", "multi"])
         if ctor in ("rep", "simp"):
-            args = {"cycles": rng.choice([0, 1, 1, 2, 2, 3]), "state": [rng.choice(STATES[:2]) for _ in range(rng.choice([2, 2, 3]))]}
+            # the simplified constructor turns the cycle count into a repetition count: 0 is outside ">= 1"
+            cyc = rng.choice([0, 1, 1, 2, 2, 3]) if ctor == "rep" else rng.choice([1, 2, 2, 3])
+            args = {"cycles": cyc, "state": [rng.choice(STATES[:2]) for _ in range(rng.choice([2, 2, 3]))]}
         elif ctor == "multi":
             args = {"rounds": rng.sample([0, 1, 2], rng.randint(1, 2)), "state": [rng.choice(STATES[:2]) for _ in range(2)]}
         else:
@@ -441,13 +454,16 @@ class Gen:
         if not hs:
             return False
         name = rng.choice(hs)
+        forced = self.force.pop("obs_handle", None)
+        if forced:
+            name = forced
         # bias towards recently created/mutated handles
-        if rng.random() < 0.5:
+        elif rng.random() < 0.5:
             for st in reversed(self.steps):
                 if st["op"] in ("ADD_OP", "ADD_SUB", "APPLY", "FLATTEN", "COPY") :
                     name = st.get("as", st["c"])
                     break
-        what = _wchoice(rng, self.P["obs"])
+        what = self.force.pop("what", None) or _wchoice(rng, self.P["obs"])
         if what in ("PLOT", "LAST") and name not in self.decl:
             what = "TIMES"
         if name in self.lib_handles and what == "OPENQL":
@@ -559,6 +575,99 @@ class Gen:
                    "state": self.rng.choice(STATES)})
         return True
 
+    # ------------------------------------------------------------ scripted openings (then random continuation)
+    def last_handle(self, s=0):
+        return self.sess_handles[s][-1]
+
+    def sc_lib_apply_flatten(self):
+        """library circuit, unroll, (flatten), look - the flows the library's own multi-round constructor uses"""
+        rng = self.rng
+        self.force["ctor"] = rng.choice(["rep", "simp", "simp", "rep"])
+        self.mk_new_lib(0)
+        lib = self.last_handle()
+        if rng.random() < 0.3:
+            self.force.update({"obs_handle": lib, "what": rng.choice(["STIM", "TIMES", "LIST"])})
+            self.mk_obs(0)
+        self.force["handle"] = lib
+        self.mk_apply(0)
+        a = self.last_handle()
+        if rng.random() < 0.5:
+            self.force.update({"obs_handle": a, "what": rng.choice(["FULL", "STIM", "ACQ"])})
+            self.mk_obs(0)
+        if self.pname in ("C11", "C07") or rng.random() < 0.3:
+            self.force["handle"] = a
+            self.mk_flatten(0)
+            a = self.last_handle()
+        self.force.update({"obs_handle": a, "what": "FULL"})
+        self.mk_obs(0)
+
+    def sc_unroll_then_copy(self):
+        """repeated block with ragged / zero-length / registry-timed branches, unrolled, durations changed, copied"""
+        rng = self.rng
+        self.force["reps"] = {"fixed": rng.choice([2, 3])}
+        self.mk_new(0)
+        blk = self.last_handle()
+        for _ in range(rng.randint(2, 5)):
+            self.force["handle"] = blk
+            if rng.random() < 0.6:
+                self.force["kind"] = rng.choice(["Wait", "VirtualVacant", "SingleQubitOperation", "Wait"])
+                self.force["dur"] = rng.choice([{"reg": ["dr0", rng.choice(["k0", "k1"])]}, {"fixed": 0.0}, {"fixed": rng.choice(self.durs)}])
+            self.mk_add_op(0)
+        self.force["handle"] = blk
+        self.mk_apply(0)
+        a = self.last_handle()
+        if rng.random() < 0.7:
+            self.mk_set_dur(0)
+        if rng.random() < 0.5:
+            self.force["handle"] = a
+            self.mk_copy(0)
+        else:
+            self.force["reps"] = {"fixed": 1}
+            self.mk_new(0)
+            par = self.last_handle()
+            self.force.update({"parent": par, "child": a})
+            self.mk_add_sub(0)
+        self.force.update({"obs_handle": self.last_handle(), "what": "FULL"})
+        self.mk_obs(0)
+
+    def sc_nested_reps(self):
+        """a repeated block that contains a repeated block, unrolled, listed"""
+        rng = self.rng
+        self.force["reps"] = {"fixed": rng.choice([2, 3])}
+        self.mk_new(0)
+        inner = self.last_handle()
+        for _ in range(rng.randint(1, 3)):
+            self.force["handle"] = inner
+            self.mk_add_op(0)
+        self.force["reps"] = {"fixed": rng.choice([1, 2, 2, 3])}
+        self.mk_new(0)
+        outer = self.last_handle()
+        for _ in range(rng.randint(1, 3)):
+            self.force["handle"] = outer
+            self.mk_add_op(0)
+        self.force.update({"parent": outer, "child": inner})
+        self.mk_add_sub(0)
+        for _ in range(rng.randint(0, 2)):
+            self.force["handle"] = outer
+            self.mk_add_op(0)
+        self.force["handle"] = outer
+        self.mk_apply(0)
+        self.force.update({"obs_handle": self.last_handle(), "what": rng.choice(["FULL", "LIST", "STIM", "FULL"])})
+        self.mk_obs(0)
+
+    SCENARIOS = {
+        "C11": [(0.25, "sc_lib_apply_flatten")],
+        "C06": [(0.12, "sc_lib_apply_flatten"), (0.12, "sc_nested_reps"), (0.06, "sc_unroll_then_copy")],
+        "C08": [(0.12, "sc_lib_apply_flatten"), (0.08, "sc_nested_reps")],
+        "C07": [(0.12, "sc_lib_apply_flatten"), (0.05, "sc_nested_reps")],
+        "C05": [(0.15, "sc_unroll_then_copy"), (0.05, "sc_nested_reps")],
+        "C02": [(0.12, "sc_nested_reps")],
+        "C01": [(0.06, "sc_nested_reps"), (0.04, "sc_unroll_then_copy")],
+        "C03": [(0.05, "sc_nested_reps"), (0.05, "sc_unroll_then_copy"), (0.04, "sc_lib_apply_flatten")],
+        "C04": [(0.05, "sc_nested_reps")],
+        "C18": [(0.04, "sc_lib_apply_flatten")],
+    }
+
     # ------------------------------------------------------------ main loop
     def run(self):
         rng = self.rng
@@ -568,6 +677,14 @@ class Gen:
                   "SET_INIT": self.mk_set_init, "NEW_LIB": self.mk_new_lib}
         for s in range(self.n_sessions):
             self.mk_new(s)
+        if not self.long:
+            x = rng.random()
+            for p_sc, fn in self.SCENARIOS.get(self.pname, []):
+                if x < p_sc:
+                    getattr(self, fn)()
+                    self.force.clear()
+                    break
+                x -= p_sc
         guard = 0
         long_mut = {"ADD_OP": 94, "ADD_SUB": 2, "NEW": 1, "APPLY": 1, "COPY": 1, "SET_DUR": 1}
         while len(self.steps) < self.budget and guard < (1200 if self.long else 400):
